@@ -255,6 +255,7 @@ class Emitter(object):
         w("#define SIM_STATE_BODY2(SITE, MASK) \\")
         w("  template <class E, class F> void on_entry(E const& e, F& f) { sim::hook_entry(SITE, e, f, this, MASK); } \\")
         w("  template <class E, class F> void on_exit(E const& e, F& f) { sim::hook_exit(SITE, e, f, this, MASK); } \\")
+        w("  static constexpr int SIM_SITE = SITE; \\")
         w("  int sim_data = 0; \\")
         w("  template <class Ar> void serialize(Ar& ar, const unsigned int) { ar & sim_data; }")
 
@@ -465,6 +466,34 @@ class Emitter(object):
             w("    }")
             w("    return -1;")
             w("  }")
+        if self.mp:
+            w("  bool visit(int mode, std::vector<int>& out) override {")
+            w("    auto vis = [&out](auto& st) { out.push_back(std::remove_cvref_t<decltype(st)>::SIM_SITE); };")
+            w("    switch (mode) {")
+            w("      case 0: m.template visit<msmb::visit_mode::active_recursive>(vis); break;")
+            w("      case 1: m.template visit<msmb::visit_mode::active_non_recursive>(vis); break;")
+            w("      case 2: m.template visit<msmb::visit_mode::all_recursive>(vis); break;")
+            w("      case 3: m.template visit<msmb::visit_mode::all_non_recursive>(vis); break;")
+            w("    }")
+            w("    return true;")
+            w("  }")
+        else:
+            w("  int state_by_id(int mach, int id) const override {")
+            w("    switch (mach) {")
+            for M in n.machines:
+                w("      case %d: {" % M["index"])
+                w("        auto& x = sim_m%d(m);" % M["index"])
+                w("        typedef typename std::remove_cvref_t<decltype(x)>::BaseState BS;")
+                w("        const BS* p = x.get_state_by_id(id);")
+                w("        if (!p) return -1;")
+                for sidx in M["states"]:
+                    S = n.states[sidx]
+                    w("        if (p == static_cast<const BS*>(&%s)) return %d;" % (self.state_ref(S), sidx))
+                w("        return -3;")
+                w("      }")
+            w("    }")
+            w("    return -2;")
+            w("  }")
         # state data
         w("  int state_data(int g) const override {")
         w("    switch (g) {")
@@ -512,6 +541,8 @@ class Emitter(object):
         if S["kind"] == SK["sub"]:
             return "sim_m%d(m)" % S["sub"]
         t = S["name"]
+        if S["kind"] == SK["exit_pt"]:
+            t = "%s::exit_pt<%s >" % (self.be(M), S["name"])
         if self.mp:
             return "sim_m%d(m).template get_state<%s >()" % (M["index"], t)
         return "sim_m%d(m).template get_state<%s&>()" % (M["index"], t)
@@ -626,6 +657,7 @@ def emit_desc(n):
     w("  d.nflags = %d;" % len(n.flags))
     for f in n.flags:
         w("  d.flag_names.push_back(%s);" % cstr(f))
+    w("  d.serializable = %s;" % ("true" if n.spec.get("serialize") else "false"))
     w("  d.spec_json = %s;" % cstr(to_json(n.spec)))
     w("  return d;")
     w("}")
